@@ -5,7 +5,7 @@ CFG = {
     "exe": "geomv_c15",
     "go_cmd": "c15",
     "stages": ["go:gen", "go:impl", "lean:judge"],
-    "theorems": [T + n for n in ["C15_placeholder"]],
+    "theorems": [T + n for n in ["C15_symm_all", "C15_symm"]],
     "trusted_base": [
         "Lean 4.33.0 kernel; axioms of every theorem printed by #print axioms must be within {propext, Classical.choice, Quot.sound}",
         "model lean/GeomV/C15/Model.lean is tied to /repo/similar.go by the correspondence run (both argument orders of every generated pair, exact comparison of the boolean answers) on every check",
